@@ -218,6 +218,7 @@ pub fn run(ctx: &mut Ctx) {
         n += 1;
         if n <= 2 || n % 5000 == 0 {
             ctx.begin_case(&format!("text:*:{}", hex(s.as_bytes())));
+            ctx.sample_note(&format!("short string {:?} through every entry point", preview(s)));
         }
         check_text(ctx, &env, s, ALL, npos);
         ctx.nontrivial(s.as_bytes());
@@ -302,6 +303,9 @@ pub fn run(ctx: &mut Ctx) {
         let t = gentext::mutate(&mut ctx.rng, &base, g.2);
         if i % 1000 == 0 {
             ctx.begin_case(&format!("text:*:{}", hex(t.as_bytes())));
+            if i % 50_000 == 0 {
+                ctx.sample_note(&format!("mutated text {:?} (from {:?})", preview(&t), preview(&base)));
+            }
         }
         check_text(ctx, &env, &t, g.1, 3);
         ctx.nontrivial(t.as_bytes());
